@@ -201,7 +201,11 @@ pub fn cli_check(s: &str) -> CaseResult {
     static N: std::sync::atomic::AtomicU64 = std::sync::atomic::AtomicU64::new(0);
     let dir = format!("{}/run/cli_{}_{}", std::env::var("VERIF_CACHE").unwrap_or_else(|_| "/verif/.cache".into()), std::process::id(), N.fetch_add(1, std::sync::atomic::Ordering::Relaxed));
     std::fs::create_dir_all(&dir).ok();
-    let mut child = std::process::Command::new(&bin).current_dir(&dir).arg(format!("--fen={}", s)).arg("-T").arg("-d").arg("1").stdin(std::process::Stdio::null()).stdout(std::process::Stdio::piped()).stderr(std::process::Stdio::piped()).spawn().map_err(|e| format!("HARNESS: cannot run {}: {}", bin, e))?;
+    // the error must be reported whatever mode the front end was asked for: perft bench, UCI
+    // (no mode flag; stdin is empty), self-play, simple printing
+    let mode: &[&str] = [&["-T", "-d", "1"][..], &[][..], &["-P"][..], &["-S", "-d", "2"][..]][(fp(&s) % 4) as usize];
+    let shown = format!("walleye --fen={:?} {}", s, mode.join(" "));
+    let mut child = std::process::Command::new(&bin).current_dir(&dir).arg(format!("--fen={}", s)).args(mode).stdin(std::process::Stdio::null()).stdout(std::process::Stdio::piped()).stderr(std::process::Stdio::piped()).spawn().map_err(|e| format!("HARNESS: cannot run {}: {}", bin, e))?;
     let t0 = std::time::Instant::now();
     loop {
         match child.try_wait() {
@@ -210,7 +214,7 @@ pub fn cli_check(s: &str) -> CaseResult {
                 let _ = child.kill();
                 let _ = child.wait();
                 std::fs::remove_dir_all(&dir).ok();
-                return Err(format!("`walleye --fen={:?} -T -d 1` neither printed an error nor exited within 10 s", s));
+                return Err(format!("`{}` neither printed an error nor exited within 10 s", shown));
             }
             Ok(None) => std::thread::sleep(std::time::Duration::from_millis(2)),
             Err(e) => return Err(format!("HARNESS: wait failed: {}", e)),
@@ -221,15 +225,107 @@ pub fn cli_check(s: &str) -> CaseResult {
     let stdout = String::from_utf8_lossy(&out.stdout);
     let stderr = String::from_utf8_lossy(&out.stderr);
     if stderr.contains("panicked") {
-        return Err(format!("`walleye --fen={:?} -T -d 1` panicked: {}", s, stderr.lines().next().unwrap_or("")));
+        return Err(format!("`{}` panicked: {}", shown, stderr.lines().next().unwrap_or("")));
     }
     if out.status.code() != Some(0) {
-        return Err(format!("`walleye --fen={:?} -T -d 1` exited with {:?} (stderr: {})", s, out.status.code(), stderr.lines().next().unwrap_or("")));
+        return Err(format!("`{}` exited with {:?} (stderr: {})", shown, out.status.code(), stderr.lines().next().unwrap_or("")));
     }
     if !stdout.contains(&expected) {
-        return Err(format!("`walleye --fen={:?} -T -d 1` did not print the loader's error '{}' (stdout: {:?})", s, expected, stdout.lines().next().unwrap_or("")));
+        return Err(format!("`{}` did not print the loader's error '{}' (stdout: {:?})", shown, expected, stdout.lines().next().unwrap_or("")));
     }
     Ok(())
+}
+
+/// Twins: two FENs of legal positions that differ in exactly one field, loaded one directly after
+/// the other in the same thread (A, B, A). Each load is judged on its own FEN, so a loader that
+/// remembers anything from the previous call (a cache keyed by part of the text, a field that is
+/// only overwritten when present) shows up as an unfaithful second or third load.
+#[derive(Debug, Clone)]
+pub struct Twin {
+    pub base: WalkRecipe,
+    pub field: u8,
+    pub sel: u16,
+    pub half: (u32, u32),
+    pub full: (u32, u32),
+}
+fn twin_strategy() -> impl Strategy<Value = Twin> {
+    let base = prop_oneof![
+        3 => walk_strategy(40),
+        3 => (placement_ep().prop_map(Start::Placement), proptest::collection::vec(any::<u16>(), 0..2)).prop_map(|(start, choices)| WalkRecipe { start, choices }),
+        2 => (placement_castle().prop_map(Start::Placement), proptest::collection::vec(any::<u16>(), 0..3)).prop_map(|(start, choices)| WalkRecipe { start, choices }),
+    ];
+    (base, 0u8..6, any::<u16>(), (counter_half(), counter_half()), (counter_full(), counter_full())).prop_map(|(base, field, sel, half, full)| Twin { base, field, sel, half, full })
+}
+pub fn twin_strings(t: &Twin) -> Option<(String, String, &'static str)> {
+    let (start, moves) = play_walk(&t.base)?;
+    let mut p = start;
+    for mv in &moves {
+        p = p.apply(mv);
+    }
+    let a = p.fen_with(t.half.0, t.full.0);
+    let mut q = p.clone();
+    let (mut h, mut f) = (t.half.0, t.full.0);
+    let name = match t.field {
+        0 => {
+            let men: Vec<usize> = (0..64).filter(|&s| matches!(p.sq[s], Some((_, k)) if k != Kind::King)).collect();
+            if men.is_empty() {
+                return None;
+            }
+            q.sq[men[(t.sel as usize * men.len()) >> 16]] = None;
+            // rights and ep target may depend on the removed man
+            q.wk &= q.sq[7] == Some((Color::White, Kind::Rook));
+            q.wq &= q.sq[0] == Some((Color::White, Kind::Rook));
+            q.bk &= q.sq[63] == Some((Color::Black, Kind::Rook));
+            q.bq &= q.sq[56] == Some((Color::Black, Kind::Rook));
+            if (q.wk, q.wq, q.bk, q.bq) != (p.wk, p.wq, p.bk, p.bq) {
+                return None;
+            }
+            "placement"
+        }
+        1 => {
+            if p.ep.is_some() || p.in_check(Color::White) || p.in_check(Color::Black) {
+                return None;
+            }
+            q.stm = p.stm.opp();
+            "side_to_move"
+        }
+        2 => {
+            let held: Vec<u8> = [(p.wk, 0u8), (p.wq, 1), (p.bk, 2), (p.bq, 3)].iter().filter(|x| x.0).map(|x| x.1).collect();
+            if held.is_empty() {
+                return None;
+            }
+            match held[(t.sel as usize * held.len()) >> 16] {
+                0 => q.wk = false,
+                1 => q.wq = false,
+                2 => q.bk = false,
+                _ => q.bq = false,
+            }
+            "castling"
+        }
+        3 => {
+            p.ep?;
+            q.ep = None;
+            "en_passant"
+        }
+        4 => {
+            if t.half.1 == h {
+                return None;
+            }
+            h = t.half.1;
+            "halfmove_clock"
+        }
+        _ => {
+            if t.full.1 == f {
+                return None;
+            }
+            f = t.full.1;
+            "fullmove_number"
+        }
+    };
+    if !q.is_legal_position() {
+        return None;
+    }
+    Some((a, q.fen_with(h, f), name))
 }
 
 pub fn run_c15(ctx: &mut Ctx) {
@@ -255,6 +351,31 @@ pub fn run_c15(ctx: &mut Ctx) {
             c15_string(&s, st)
         },
         |m| json!({"string": mutfen_string(m)}),
+    );
+    run_prop(
+        ctx,
+        "one_field_twins_loaded_back_to_back",
+        twin_strategy,
+        t.pick(120_000, 2_000_000),
+        |tw, st| {
+            let Some((a, b, name)) = twin_strings(tw) else {
+                st.label("twin_not_constructible_skip");
+                return Ok(());
+            };
+            st.sample(|| json!({"strings": [a, b], "differing_field": name}));
+            st.label(&format!("twin_differs_in_{}", name));
+            let mut quiet = Stats::new();
+            for s in [&a, &b, &a] {
+                if must_accept(s).is_none() {
+                    return Err(format!("HARNESS: generated twin FEN {:?} is not accepted by the strict reader", s));
+                }
+                c15_string(s, &mut quiet).map_err(|m| format!("{} [loaded in the sequence {:?}, {:?}, {:?}]", m, a, b, a))?;
+                st.eval();
+            }
+            st.nontrivial(fp(&(&a, &b)));
+            Ok(())
+        },
+        |tw| json!({"strings": twin_strings(tw).map(|x| vec![x.0.clone(), x.1, x.0])}),
     );
     run_prop(
         ctx,
@@ -334,6 +455,12 @@ pub fn run_c15(ctx: &mut Ctx) {
 }
 
 pub fn replay_c15(case: &Value) -> CaseResult {
+    if let Some(seq) = case.get("strings").and_then(|x| x.as_array()) {
+        for s in seq.iter().filter_map(|x| x.as_str()) {
+            c15_string(s, &mut Stats::new()).map_err(|m| format!("{} [loaded in the sequence {:?}]", m, seq))?;
+        }
+        return Ok(());
+    }
     let s = case.get("string").and_then(|x| x.as_str()).ok_or("no string in replay case")?;
     if case.get("cli").is_some() {
         return cli_check(s);
